@@ -12,15 +12,24 @@ COMMON = dict(harness='io.cpp', extra_tus=TUS, printf_model=True, keep=FMT, patc
                            'language detection / keyword table initialisation stubbed', 'allocation never fails'])
 
 
+def UNWINDSET(l):
+    return {r'backup_create_md5_file\w*\.[3-9]$': 18, 'decode_|_utf|get_word|is_ascii|decode_bom': l + 3,
+            'f_fread|f_read': l + 6,
+            'f_fwrite|load_mem_file|file_content_matches|bout_content|f__Z15uncrustify_file|backup_create_md5_file|MD5': l + 3,
+            'vp_fmt_int': 4, 'do_source_file|make_folders': 18}
+
+
 def atomic_instances(tier):
     out = []
-    combos = [(2, 1, 1), (2, 0, 2)] if tier == 'quick' else [(2, 1, 1), (2, 0, 2), (2, 1, 2), (3, 1, 1), (3, 0, 2)]
-    for (l, crash, nf) in combos:
-        out.append(dict(name='L%d-crash%d-faults%d' % (l, crash, nf),
-                        bound='original and formatted content: all byte strings of length %d; in-place modes --replace/--no-backup x --if-changed; '
-                              '%s crash point x %d injected fault(s) over all libc file operations of the run; arbitrary stale temp/backup/md5 files' % (l, 'one' if crash else 'no', nf),
-                        unwind=40, unwindset={r'backup_create_md5_file\w*\.[3-9]$': 18, 'decode_|_utf|get_word|is_ascii|decode_bom': l + 3, 'f_fread|f_read|f_fwrite|load_mem_file|file_content_matches|bout_content|f__Z15uncrustify_file|backup_create_md5_file|MD5': l + 3, 'vp_fmt_int': 4, 'do_source_file|make_folders': 18},
-                        defs=dict(VP_FS_L=l, CRASH=crash, NFAULTS=nf, VP_CAP_U8=l + 3, VP_CAP_INT=l + 2)))
+    # (L, crash, faults, no_backup, if_changed)
+    combos = [(1, 1, 1, 1, 0), (1, 1, 1, 0, 0), (1, 0, 2, 0, 0), (1, 1, 1, 0, 1)] if tier == 'quick' else \
+             [(l, c, f, nb, ic) for l in (1, 2) for (c, f) in ((1, 1), (0, 2), (1, 2)) for nb in (0, 1) for ic in (0, 1)] + [(3, 1, 1, 0, 0), (3, 1, 1, 1, 0)]
+    for (l, crash, nf, nb, ic) in combos:
+        out.append(dict(name='L%d-crash%d-faults%d-nobackup%d-ifchanged%d' % (l, crash, nf, nb, ic),
+                        bound='original and formatted content: all byte strings of length %d; in-place, --no-backup=%d, --if-changed=%d; formatting may fail; '
+                              '%s crash point x %d injected fault(s) over all libc file operations of the run; arbitrary stale temp/backup/md5 files' % (l, nb, ic, 'one' if crash else 'no', nf),
+                        unwind=40, unwindset=UNWINDSET(l),
+                        defs=dict(VP_FS_L=l, CRASH=crash, NFAULTS=nf, NOBACKUP=nb, IFCH=ic, VP_CAP_U8=l + 3, VP_CAP_INT=l + 2)))
     return out
 
 
